@@ -145,8 +145,19 @@ def tzkind(d):
 
 @st.composite
 def roundtrip_case(draw):
-    return {"dts": draw(st.lists(gen.datetimes(), min_size=1, max_size=5)),
-            "fmt": draw(st.sampled_from(["stream", "stream.gz", "json", "sqlite", "avro"]))}
+    dts = draw(st.lists(gen.datetimes(), min_size=1, max_size=4))
+    # the same instant under another offset / the other fold of the same wall time (values that compare equal)
+    for _ in range(draw(st.integers(0, 2))):
+        base = dts[draw(st.integers(0, len(dts) - 1))]
+        tz = draw(gen.tzinfos(naive=False))
+        try:
+            aware = base if base.tzinfo is not None else base.replace(tzinfo=UTC)
+            other = aware.astimezone(tz) if draw(st.booleans()) else base.replace(fold=1 - base.fold)
+            if other.utcoffset() is None or not other.utcoffset().microseconds:
+                dts.append(other)
+        except (OverflowError, ValueError):
+            pass
+    return {"dts": dts, "fmt": draw(st.sampled_from(["stream", "stream.gz", "json", "sqlite", "avro"]))}
 
 
 def check_roundtrip(case, ctx):
